@@ -202,3 +202,49 @@ def install(reg, src):
             c.loop(1, lambda st: [], havoc={"result": list_of_entries(sp, e, vs)})
     row_contract(f"{VE}:VectorUnarySum.jacobian_row", "VectorUnarySum", cases={"op": list(VEC_UNARY_OPS)}, setup=vus_setup,
                  known=lambda c: ({"op": c.choose("op", list(VEC_UNARY_OPS))} if c.choose("op", list(VEC_UNARY_OPS)) else None))
+
+    # ---- BinaryOp: f + c, f - c, c + f, c * f, f * c delegate to the operand's row (virtual contract, strict sub-term)
+    row_contract(f"{EX}:BinaryOp.jacobian_row", "BinaryOp", cases={"op": list(BINARY_OPS)},
+                 known=lambda c: ({"op": c.choose("op", list(BINARY_OPS))} if c.choose("op", list(BINARY_OPS)) else None))
+
+    # ---- rows that are stated, not proved
+    row_contract(f"{MX}:QuadraticForm.jacobian_row", "QuadraticForm", rank=2)
+    reg.contracts[f"{MX}:QuadraticForm.jacobian_row"].bounded = (
+        "row i is LinearCombination((Q + Q.T)[i, :], x): a nested sum over a numeric matrix, outside the sum theory of the "
+        "executor; compared with finite differences by the bounded stand-in (native/bounded_jacobian.py)")
+    row_contract(f"{MX}:MatrixSum.jacobian_row", "MatrixSum", rank=2)
+    reg.contracts[f"{MX}:MatrixSum.jacobian_row"].bounded = (
+        "matrix operands (MatrixVariable / MatrixExpression) have no denotation in the spec vocabulary; compared with finite "
+        "differences by the bounded stand-in (native/bounded_jacobian.py)")
+
+    # ---- compute_jacobian: one row per expression, from jacobian_row when it answers, else column-wise gradient
+    for m_ in (1, 2):
+        def mk(m_=m_):
+            @reg.contract(f"{AD}:compute_jacobian", props=["C03", "C17"], cases={"m": [1, 2]}) if m_ == 1 else (lambda f: f)
+            def _(c):
+                sp = Spec(c.ip)
+                mm = c.choose("m", [1, 2])
+                if c.verifying:
+                    es = [T.expr().fresh(c.ip, f"e{k}") for k in range(mm)]
+                    exprs = c.arg("exprs", T.const(PList(es)))
+                else:
+                    exprs = c.arg("exprs")
+                    if not isinstance(exprs, PList):
+                        raise Unsupported("compute_jacobian with a symbolic-length list of expressions")
+                    es = list(exprs.items)
+                vs = varlist(c)
+                for e in es:
+                    c.requires(sp.wf(e), name="well-formed scalar expression")
+                c.returns(lambda cc: PList([row_value(sp, e, vs, allow_none=False) for e in es]))
+
+                def post(res):
+                    if not isinstance(res, PList) or len(res.items) != len(es):
+                        return [z3.BoolVal(False)]
+                    goals = []
+                    for e, row in zip(es, res.items):
+                        goals += row_goals(sp, e, vs, row, may_be_none=False)
+                    return goals
+                c.ensures("rows", post)
+            return _
+        if m_ == 1:
+            mk()
